@@ -10,14 +10,15 @@ from .common import AT4_API, AT5_API, SOCKET, SOCK_CLS, fn_of, sock_fn
 
 LEVEL = "other"
 EXPLANATION = (
-    "Static analysis of AirTouchSocket (CFG with exception edges, dominance/post-dominance, may-escape effect analysis over the "
-    "resolved call graph): R1 every way out of the read loop resets the connection unless we closed locally; R2 reset = disconnect "
-    "(close writer, await wait_closed under OSError suppression, clear state, notify) then schedule connect; R3 every completed "
-    "connect attempt that leaves the socket unconnected re-tests is_connected and schedules a delayed retry (positive delay); R4 "
-    "single flight: the entry guard of _connect returns when connected, when an attempt is in flight (flag set before the first "
-    "await and cleared on every exit incl. cancellation) or when closed; R5 once is_connected is True the read loop is scheduled "
-    "before anything that may raise; R6 encode errors are skipped without reset, write errors reset; R7 subscriber isolation in the "
-    "three _notify_subscribers; R8 sole owners of open_connection / reader / writer. Liveness and real interleavings are not decided."
+    "Static analysis of AirTouchSocket (CFG with exception edges, dominance/post-dominance, may-escape effect analysis over the resolved call "
+    "graph): R1 every way out of the read loop resets the connection unless we closed locally; R2 reset = disconnect (close writer, await "
+    "wait_closed under OSError suppression, clear state, notify) then schedule connect; R3 every completed connect attempt that leaves the socket"
+    " unconnected re-tests is_connected and schedules a delayed retry (positive delay); R4 single flight: the entry guard of _connect returns "
+    "when connected, when an attempt is in flight (flag set before the first await and cleared on every exit incl. cancellation) or when closed; "
+    "R5 once is_connected is True the read loop is scheduled before anything that may raise; R6 encode errors are skipped without reset, write "
+    "errors reset; R7 subscriber isolation in the three _notify_subscribers (every callback result awaited inside a try whose catch-all handler "
+    "neither re-raises nor leaves the loop); R8 sole owners of open_connection / reader / writer. Liveness and real interleavings are not "
+    "decided."
 )
 ASSUMPTIONS = [
     "library calls in the frozen no-raise table of sa/effects.py do not raise (logging, loop.time/create_task, set/deque ops, StreamWriter.write/close/is_closing)",
